@@ -1557,9 +1557,20 @@ class BaseSpaceImpl(*_base_space_impl_base):
         for space in self.named_spaces.values():
             space.clear_ref_referrers()
 
+    def clear_cells_nodes(self):
+        """Clear the nodes of the Cells objects and their dependents
+
+        Uncached Cells hold no values, but values depend on them.
+        """
+        for cells in self.cells.values():
+            self.model.clear_obj(cells)
+        for space in self.named_spaces.values():
+            space.clear_cells_nodes()
+
     def on_delete(self):
         for cells in self.cells.values():
             cells.clear_all_values(clear_input=True)
+            self.model.clear_obj(cells)
             cells.on_delete()
         self.clear_ref_referrers()
         super().on_delete()
@@ -1962,6 +1973,7 @@ class UserSpaceImpl(*_user_space_impl_base):
     def on_rename(self, name):
         self.model.clear_obj(self)
         self.clear_all_cells(clear_input=True, recursive=True, del_items=True)
+        self.clear_cells_nodes()
         self.clear_ref_referrers()
         old_name = self.name
         self.name = name
